@@ -180,6 +180,17 @@ Example C05_lookup_example_star_q0 :
   lookup [(txt "fr", 1000); (txt "*", 0)] [txt "en"] (Some (txt "en")) (Some (txt "en")) false = LDefault.
 Proof. vm_compute. reflexivity. Qed.
 
+(* ===================================================================== histories on one object *)
+(* In the model a header object's state is its parsed list and no method writes it: the i-th answer of
+   any history of basic_filtering / lookup calls on one object is the answer of that call alone, and
+   `.parsed` reads the same after every call.  (That the real methods leave the object alone is what the
+   `history` correspondence and the history oracle check on every run.) *)
+Theorem C05_history_pure : forall p ops i o,
+  nth_error ops i = Some o ->
+  nth_error (run_history p ops) i = Some (VList [hop_answer p o; parsed_val p]).
+Proof. exact run_history_nth. Qed.
+Print Assumptions C05_history_pure.
+
 (* ===================================================================== invalid / missing header *)
 Theorem C05_invalid_header : forall (tags : list str) dt dn,
   basic_filtering_nohdr tags = [] /\
